@@ -27,27 +27,50 @@ FUNCTIONS = [
 
 ASSUMPTIONS = [
     "event-loop model contracts/looplib.py (trusted); 'once the loop is idle' = after run_ready()",
-    "listeners are recorders that do not raise and are registered once",
+    "listeners are recorders that do not raise; a listener is registered under one filter (a listener registered under two matching filters is, by the code's design, told twice)",
+    "the callers of _notify_service_offered / _notify_service_stopped see their contract projected on the two listeners a harness follows (the calls to all other listeners are not observable by it); the contract is verified against the real loops for an arbitrary registration",
     "history claims are proved as one inductive step from an arbitrary consistent state (monitor: the listener's last notification for (service, source) is 'offered' iff the entry is in the store) under every single operation; the induction over the history is the (trusted) induction rule",
 ]
 
-BOUNDED = ["listener registrations: one filter with one listener plus one watch-all listener (each optional); the store of known offers is unbounded"]
+BOUNDED = []
 
-EXPLANATION = "each operation of the discovery part is proved to keep the monitor invariant (alternation, truthfulness) for all ids, wildcards, TTLs, addresses and times; the number of simultaneously stored other entries and of registered listeners is bounded in shape (bounded_stand_ins); one schedule (late registration overtaken by a StopOffer) is a recorded known finding"
+EXPLANATION = "each operation of the discovery part is proved to keep the monitor invariant (alternation, truthfulness) for all ids, wildcards, TTLs, addresses and times; the store of known offers, the registered filters, the listeners per filter and the watch-all listeners are all unbounded (lazily materialised dicts / sets, loop contracts for the fan-out, any() over the registrations as a quantifier); one schedule (late registration overtaken by a StopOffer) is a recorded known finding"
 
 
-class Recorder(SD.ClientServiceListener):
-    VC_MODEL = True  # environment model (write-only recorder): outside the frames of loop contracts
+def _notify(self, service, source, method):
+    """CONTRACT of ServiceDiscover._notify_service_offered / _notify_service_stopped, as the
+    callers see it: every listener registered under a filter that matches the service, then
+    every watch-all listener, is called exactly once with (service, source) -- and nobody
+    else.  (Verified against the real loops by ob_notify_offered / ob_notify_stopped for an
+    arbitrary registration among arbitrarily many.)  A harness world tracks two of the
+    registered listeners; the calls to all the others are not observable by it."""
+    w = getattr(self, "_verif_world", None)
+    if w is None:
+        for service_filter, listeners in self.watched_services.items():
+            if service_filter.matches_service(service):
+                for listener in listeners:
+                    getattr(listener, method)(service, source)
+        for listener in self.watcher_all_services:
+            getattr(listener, method)(service, source)
+        return
+    if w.registered and w.F.matches_service(service):
+        getattr(w.L, method)(service, source)
+    if w.all_registered:
+        getattr(w.Lall, method)(service, source)
 
-    def __init__(self, name, log):
-        self.name = name
-        self.log = log
 
-    def service_offered(self, service, source):
-        self.log.append((self.name, "offered", service, source))
+def notify_service_offered(self, service, source):
+    _notify(self, service, source, "service_offered")
 
-    def service_stopped(self, service, source):
-        self.log.append((self.name, "stopped", service, source))
+
+def notify_service_stopped(self, service, source):
+    _notify(self, service, source, "service_stopped")
+
+
+CONTRACTS = {
+    "someip.sd.ServiceDiscover._notify_service_offered": notify_service_offered,
+    "someip.sd.ServiceDiscover._notify_service_stopped": notify_service_stopped,
+}
 
 
 class DWorld:
@@ -59,8 +82,13 @@ class DWorld:
         self.prot, self.sent = SS.gen_sd_protocol(vc, name + ".prot")
         self.disc = self.prot.discovery
         self.log = []
-        self.L = Recorder("L", self.log)
-        self.Lall = Recorder("Lall", self.log)
+        self.disc._verif_world = self
+        # ARBITRARILY MANY registrations: filter -> set of listeners, and watch-all listeners
+        # (lazily materialised); L and Lall are the two listeners the obligations follow
+        self.disc.watched_services = vc.lazy_dict(name + ".watched", self.gen_listener_set, self.gen_filter, default=set)
+        self.disc.watcher_all_services = vc.lazy_set(name + ".watch_all", self.gen_other_listener)
+        self.L = self.mk_listener(name + ".L", "L")
+        self.Lall = self.mk_listener(name + ".Lall", "Lall")
         self.A = vc.opaque(name + ".A", "addr")
         self.B = vc.opaque(name + ".B", "addr")
         vc.assume(self.A != self.B)
@@ -80,16 +108,24 @@ class DWorld:
             self.F = C.Service(self.S.service_id, other)
         self.registered = register
         if self.registered:
-            self.disc.watched_services[self.F].add(self.L)
+            # F is registered with L and arbitrarily many other listeners
+            ls = vc.lazy_set(name + ".F.listeners", self.gen_other_listener)
+            ls.add(self.L)
+            self.disc.watched_services[self.F] = ls
+        elif self.F in self.disc.watched_services:
+            vc.assume(self.L not in self.disc.watched_services[self.F])
         self.all_registered = register and vc.choice(name + ".Lall_registered", (True, False))
         if self.all_registered:
             self.disc.watcher_all_services.add(self.Lall)
+        else:
+            vc.assume(self.Lall not in self.disc.watcher_all_services)
         # the store of known offers holds arbitrarily many entries (vc.lazy_dict): each existing
         # entry carries the discovery part's 'stopped' callback and None or a live timer
         ts = self.disc.found_services
         ts.store = vc.lazy_dict(name + ".found", self.gen_inner, self.gen_addr, default=dict)
-        # (X, Sx): an ARBITRARY OTHER entry -- another service, from the same source, from B
-        # or from any other source; what holds for it holds for every other entry
+        # (X, Sx): an ARBITRARY OTHER entry -- another service from the same source, or any
+        # service (the same one included) from B or from any other source; what holds for it
+        # holds for every other entry
         where = vc.choice(name + ".X", ("same-source", "B", "elsewhere"))
         if where == "same-source":
             self.X = self.A
@@ -99,7 +135,9 @@ class DWorld:
             self.X = vc.opaque(name + ".X.addr", "addr")
             vc.assume(self.X != self.A and self.X != self.B)
         self.Sx = SCFG.gen_service(vc, name + ".Sx", with_options=False)
-        vc.assume(self.Sx != self.S)
+        # any other entry: another service, or the same service from another source
+        if self.X is self.A:
+            vc.assume(self.Sx != self.S)
         self.S1 = self.Sx
         # entries the obligations talk about are looked at (materialised) up front
         self.slots = {}
@@ -112,6 +150,31 @@ class DWorld:
         """besides the store of known offers (whose slot-level frame the obligations state)
         nothing of the discovery part or the protocol object changes"""
         check_frame(self.vc, self.heap, label, ("prot.discovery.found_services.store*",) + tuple(allowed))
+
+    def mk_listener(self, name, who):
+        """a listener: an opaque object whose two callbacks record (who, what, service, source, listener)"""
+        vc = self.vc
+        l = vc.opaque(name, "listener")
+        log = self.log
+
+        def offered(service, source):
+            log.append((who, "offered", service, source, l))
+
+        def stopped(service, source):
+            log.append((who, "stopped", service, source, l))
+
+        vc.stub(l, "service_offered", offered)
+        vc.stub(l, "service_stopped", stopped)
+        return l
+
+    def gen_other_listener(self, vc, name):
+        return self.mk_listener(name, "other")
+
+    def gen_filter(self, vc, name):
+        return SCFG.gen_service(vc, name, with_options=False)
+
+    def gen_listener_set(self, vc, name, key):
+        return vc.lazy_set(name + ".listeners", self.gen_other_listener)
 
     def gen_addr(self, vc, name):
         return vc.opaque(name, "addr")
@@ -143,26 +206,26 @@ class DWorld:
     def events(self, who, service, source):
         return [e[1] for e in self.log if e[0] == who and e[2] == service and e[3] == source]
 
+    def told(self, who, what, service, source):
+        """how often listener `who` was told `what` about (service, source) -- no case split"""
+        return self.vc.count([e[0] == who and e[1] == what and e[2] == service and e[3] == source for e in self.log])
+
     def check_step(self, label, before):
-        """monitor step for every listener and every tracked (service, source): a listener
-        whose filter matches is told 'offered' exactly when the entry appeared, 'stopped'
-        exactly when it disappeared, and nothing otherwise (once the loop is idle)"""
+        """monitor step for every followed listener and every tracked (service, source): a
+        listener whose filter matches is told 'offered' exactly once when the entry appeared,
+        'stopped' exactly once when it disappeared, and nothing otherwise (once the loop is
+        idle); listeners that are not concerned hear nothing"""
         vc = self.vc
         self.loop.run_ready()
         for slot in self.slots:
             addr, key = slot
             was = before[slot]
             now = self.present(addr, key)
+            appeared = 1 if (now and not was) else 0
+            disappeared = 1 if (was and not now) else 0
             for who, active in (("L", self.registered and self.F.matches_service(key)), ("Lall", self.all_registered)):
-                ev = self.events(who, key, addr)
-                if not active:
-                    vc.check_eq(ev, [], label + ".unconcerned_listener_hears_nothing")
-                elif was and not now:
-                    vc.check_eq(ev, ["stopped"], label + ".disappearance_reported_stopped_once")
-                elif now and not was:
-                    vc.check_eq(ev, ["offered"], label + ".appearance_reported_offered_once")
-                else:
-                    vc.check_eq(ev, [], label + ".no_change_no_notification")
+                vc.check_eq(self.told(who, "offered", key, addr), vc.ite(active, appeared, 0), label + ".offered_reported_exactly_when_the_entry_appeared_to_concerned_listeners_only")
+                vc.check_eq(self.told(who, "stopped", key, addr), vc.ite(active, disappeared, 0), label + ".stopped_reported_exactly_when_the_entry_disappeared_to_concerned_listeners_only")
         self.check_frame(label)
 
     def snapshot(self):
@@ -173,10 +236,26 @@ def ob_handle_offer(vc):
     """an offer (TTL > 0) for a watched service is recorded with its TTL and reported as
     'offered' iff it was not known; a stop-offer (TTL 0) removes it and is reported iff it
     was known; offers for services nobody watches change nothing"""
-    w = DWorld(vc)
+    w = DWorld(vc, track=("A_S", "X_Sx"))
     before = w.snapshot()
-    watching = w.all_registered or (w.registered and w.F.matches_offer(w.offer))
+    decided = []
+    real_is_watching = w.disc.is_watching_service
+
+    def is_watching(entry):
+        r = real_is_watching(entry)
+        decided.append(r)
+        return r
+
+    vc.stub(w.disc, "is_watching_service", is_watching)
+    w.heap = vc.snapshot(prot=w.prot)
     w.disc.handle_offer(w.offer, w.A)
+    vc.check_eq(len(decided), 1, "handle_offer.asks_once_whether_the_service_is_watched")
+    if len(decided) != 1:
+        return
+    watching = decided[0]
+    if w.all_registered or (w.registered and w.F.matches_offer(w.offer)):
+        # (ob_is_watching_service: true iff some registered filter matches or somebody watches all)
+        vc.check(watching, "handle_offer.service_of_interest_to_a_listener_is_handled")
     if not watching:
         vc.cover("not-watched")
         vc.check_eq(w.present(w.A, w.S), before[(w.A, w.S)], "handle_offer.unwatched_service_ignored")
@@ -192,8 +271,7 @@ def ob_handle_offer(vc):
                 vc.check(h is None, "handle_offer.infinite_ttl_never_expires")
             else:
                 vc.check(h is not None and h.when == w.loop.now + w.offer.ttl and not h.cancelled_, "handle_offer.expires_ttl_after_this_offer")
-    vc.check_eq(w.present(w.B, w.S), before[(w.B, w.S)], "handle_offer.same_service_from_other_sources_untouched")
-    vc.check_eq(w.present(w.X, w.Sx), before[(w.X, w.Sx)], "handle_offer.other_services_untouched")
+    vc.check_eq(w.present(w.X, w.Sx), before[(w.X, w.Sx)], "handle_offer.every_other_entry_untouched")
     w.check_step("handle_offer", before)
 
 
@@ -223,7 +301,33 @@ def _svc_head(vc, v, entering):
         vc.stash("watch.service", v["s"])
 
 
+def _nf_filter_head(vc, v, entering):
+    st = vc.stashed("notify")
+    if entering:
+        st["filter"] = v["service_filter"]
+
+
+def _nf_listener_head(vc, v, entering):
+    st = vc.stashed("notify")
+    if entering:
+        st["listener"] = v["listener"]
+
+
+def _nf_all_head(vc, v, entering):
+    st = vc.stashed("notify")
+    if entering:
+        st["all"] = v["listener"]
+
+
+_NOTIFY_LOOPS = {"head": _nf_filter_head}, {"head": _nf_listener_head}, {"head": _nf_all_head}
+
 LOOPS = {
+    ("someip.sd.ServiceDiscover._notify_service_offered", 0): _NOTIFY_LOOPS[0],
+    ("someip.sd.ServiceDiscover._notify_service_offered", 1): _NOTIFY_LOOPS[1],
+    ("someip.sd.ServiceDiscover._notify_service_offered", 2): _NOTIFY_LOOPS[2],
+    ("someip.sd.ServiceDiscover._notify_service_stopped", 0): _NOTIFY_LOOPS[0],
+    ("someip.sd.ServiceDiscover._notify_service_stopped", 1): _NOTIFY_LOOPS[1],
+    ("someip.sd.ServiceDiscover._notify_service_stopped", 2): _NOTIFY_LOOPS[2],
     ("someip.sd.ServiceDiscover.watch_service", 0): {"head": _addr_head},
     ("someip.sd.ServiceDiscover.watch_service", 1): {"head": _svc_head},
     ("someip.sd.ServiceDiscover.stop_watch_service", 0): {"head": _addr_head},
@@ -264,6 +368,85 @@ def _mass_withdrawal(vc, w, o, label, addr_of_interest):
         vc.check(not w.present(addr, service), label + ".withdrawn_offer_forgotten")
     else:
         vc.check_eq(w.log, [], label + ".nothing_reported_beyond_the_entries")
+
+
+def _notify_obligations(vc, fn, what, label):
+    """the fan-out to ARBITRARILY MANY registered listeners (loop contracts, one arbitrary
+    element each): a listener registered under an arbitrary filter is called -- exactly once,
+    with the service and its source -- iff that filter matches the service; an arbitrary
+    watch-all listener is called exactly once; nobody else is called.  (The keys of a dict
+    and the members of a set are visited once each, so 'once per registration'.)"""
+    w = DWorld(vc, register=vc.choice("F_and_L_registered", (True, False)), track=())
+    service = SCFG.gen_service(vc, "service", with_options=False)
+    source = vc.opaque("source", "addr")
+    st = {"filter": None, "listener": None, "all": None}
+    vc.stash("notify", st)
+    w.heap = vc.snapshot(prot=w.prot)
+    o = vc.outcome(vc.body(fn), w.disc, service, source)
+    vc.check(o.kind != "raise", label + ".never_raises")
+    w.check_frame(label)
+    if vc.native:
+        exp = []
+        for f, listeners in w.disc.watched_services.items():
+            if f.matches_service(service):
+                for l in listeners:
+                    exp.append(l)
+        for l in w.disc.watcher_all_services:
+            exp.append(l)
+        vc.check_eq(sorted([repr(e[4]) for e in w.log]), sorted([repr(l) for l in exp]), label + ".every_concerned_listener_exactly_once_and_nobody_else")
+        vc.check(all(e[1] == what and e[2] == service and e[3] == source for e in w.log), label + ".told_about_this_service_and_source")
+        return
+    if st["all"] is not None:
+        vc.cover("watch-all-listener")
+        vc.check(len(w.log) == 1 and w.log[0][4] is st["all"], label + ".watch_all_listener_called_exactly_once")
+    elif st["listener"] is not None:
+        vc.cover("filter-listener")
+        vc.check(st["filter"].matches_service(service), label + ".listeners_of_a_filter_that_does_not_match_are_not_called")
+        vc.check(len(w.log) == 1 and w.log[0][4] is st["listener"], label + ".listener_of_a_matching_filter_called_exactly_once")
+    else:
+        vc.cover("nobody")
+        vc.check_eq(len(w.log), 0, label + ".nobody_else_is_called")
+    for e in w.log:
+        vc.check(e[1] == what and e[2] == service and e[3] == source, label + ".told_about_this_service_and_source")
+
+
+def ob_notify_offered(vc):
+    _notify_obligations(vc, SD.ServiceDiscover._notify_service_offered, "offered", "_notify_service_offered")
+
+
+def ob_notify_stopped(vc):
+    _notify_obligations(vc, SD.ServiceDiscover._notify_service_stopped, "stopped", "_notify_service_stopped")
+
+
+def ob_is_watching_service(vc):
+    """is_watching_service(entry) over ARBITRARILY MANY registrations: true iff somebody
+    watches all services or some registered filter matches the offer"""
+    w = DWorld(vc, register=vc.choice("F_and_L_registered", (True, False)), track=())
+    w.heap = vc.snapshot(prot=w.prot)
+    r = vc.body(SD.ServiceDiscover.is_watching_service)(w.disc, w.offer)
+    w.check_frame("is_watching_service")
+    if vc.native:
+        exp = len(w.disc.watcher_all_services) > 0
+        for f in w.disc.watched_services.keys():
+            exp = exp or f.matches_offer(w.offer)
+        vc.check_eq(bool(r), exp, "is_watching_service.iff_watch_all_or_some_registered_filter_matches")
+        return
+    if r:
+        vc.cover("watched")
+        if len(w.disc.watcher_all_services) == 0:
+            vc.cover("by-filter")
+            ws = vc.witnesses()
+            vc.check(len(ws) == 1, "is_watching_service.true_has_a_witness")
+            if len(ws) == 1:
+                vc.check(ws[0][0] in w.disc.watched_services, "is_watching_service.true_only_for_a_registered_filter")
+                vc.check(ws[0][0].matches_offer(w.offer), "is_watching_service.true_only_if_that_filter_matches")
+    else:
+        vc.cover("not-watched")
+        vc.check_eq(len(w.disc.watcher_all_services), 0, "is_watching_service.false_only_if_nobody_watches_all")
+        vc.check(not w.all_registered, "is_watching_service.false_only_if_nobody_watches_all")
+        if w.registered:
+            vc.cover("registered-filter")
+            vc.check(not w.F.matches_offer(w.offer), "is_watching_service.false_only_if_no_registered_filter_matches")
 
 
 def ob_reboot_detected(vc):
@@ -398,6 +581,9 @@ def ob_late_registration_overtaken(vc):
 
 
 HARNESSES = ST.STORE_OBLIGATIONS + [
+    ob_is_watching_service,
+    ob_notify_offered,
+    ob_notify_stopped,
     ob_handle_offer,
     ob_expiry,
     ob_reboot_detected,
@@ -417,4 +603,7 @@ EXPECT_COVERS = {
     "ob_watch_service": ["known-offer"],
     "ob_watch_all_services": ["known-offer"],
     "ob_stop_watch": ["known-offer"],
+    "ob_notify_offered": ["watch-all-listener", "filter-listener", "nobody"],
+    "ob_notify_stopped": ["watch-all-listener", "filter-listener", "nobody"],
+    "ob_is_watching_service": ["watched", "by-filter", "not-watched", "registered-filter"],
 }
